@@ -122,7 +122,25 @@ func c06Rotate(r *vfRand, c c06Cfg) c06Cfg {
 // c06ValidBase: a request that its own configuration accepts
 func c06ValidBase(r *vfRand) c06In {
 	in := c06In{JNow: 1700000000 + int64(r.Intn(100000)), Req: c06Req{Method: "GET", Path: r.PickStr("/", "/a", "/api/v1/users"), Host: "example.com"}}
-	switch r.Intn(4) {
+	switch r.Intn(6) {
+	case 4, 5: // jwt judged on the real clock: time claims within +-90 s of now, both sides
+		cfg := &c06JWTCfg{Alg: r.PickStr("HS256", "HS384", "HS512"), Secret: r.PickStr("6d79736563726574", "00ff10")}
+		jp := &c06JPlan{Alg: cfg.Alg, Secret: cfg.Secret}
+		off := func(xs ...int) *int64 { x := int64(xs[r.Intn(len(xs))]); return &x }
+		switch r.Intn(4) {
+		case 0:
+			jp.Exp = off(5, 30, 59, 90, -5, -30, -59, -90)
+		case 1:
+			jp.Nbf = off(-5, -30, -59, -90, 5, 30, 59)
+		case 2:
+			jp.Iat = off(-5, -30, -59, -90, 5, 30)
+		default:
+			jp.Exp, jp.Nbf, jp.Iat = off(30, 59, 3600), off(-30, -59, -5), off(-30, -5)
+		}
+		if r.Chance(1, 4) {
+			cfg.Cookie, jp.Cookie = "auth", "auth"
+		}
+		in.Cfg.JWT, in.JPlan, in.JNow, in.Kind = cfg, jp, 0, 83
 	case 0, 1: // jwt
 		cfg := &c06JWTCfg{Alg: r.PickStr("HS256", "HS384", "HS512"), Secret: r.PickStr("6d79736563726574", "00ff10", "a1b2")}
 		exp := ""
@@ -174,15 +192,31 @@ func c06GenMulti(r *vfRand, adv bool) c06XIn {
 	if r.Chance(1, 3) { // a third instance configured exactly like the first
 		x.Cfgs = append(x.Cfgs, c06CloneCfg(a))
 	}
+	// an instance with an oauth2.jwt section lives in the same process (from the start, or it appears
+	// at a reload); it is never asked anything
+	oauth := c06Cfg{OAuth2: &c06JWTCfg{Alg: r.PickStr("HS256", "HS512"), Secret: "0a0b0c"}}
+	oauthAt := -1
+	if a.JWT != nil && (r.Chance(1, 2) || adv) {
+		if r.Chance(1, 2) {
+			x.Cfgs = append(x.Cfgs, oauth)
+		} else {
+			x.Cfgs = append(x.Cfgs, c06Cfg{Headers: []c06HRule{{Key: "X-Unused", Values: []string{"1"}}}})
+			oauthAt = len(x.Cfgs) - 1
+		}
+	}
 	req := func(i int) { x.Steps = append(x.Steps, c06XStep{Inst: i, Case: 0}) }
 	first, second := 0, 1
 	if r.Chance(1, 4) {
 		first, second = 1, 0
 	}
 	req(first)
+	if oauthAt >= 0 {
+		o := oauth
+		x.Steps = append(x.Steps, c06XStep{Inst: oauthAt, Reload: &o})
+	}
 	req(second)
 	req(first)
-	if len(x.Cfgs) > 2 {
+	if len(x.Cfgs) > 2 && x.Cfgs[2].OAuth2 == nil && oauthAt != 2 {
 		req(2)
 	}
 	// reload with rotated secrets, then back
